@@ -13,7 +13,7 @@
                 identical to it (events, result, error, globals, count)
      Prefix     every run with L < N is aborted and its events are a prefix of the
                 reference run's events                                                    *)
-EXTENDS Integers, Sequences, TLC, Json, IOUtils, SequencesExt
+EXTENDS Integers, Sequences, TLC, Json, IOUtils, SequencesExt, TreeEq
 
 Cases == JsonDeserialize(IOEnv.CASES)
 VARIABLES tid, verdict
@@ -32,14 +32,14 @@ ExactRun(r) ==
                /\ (r.fin.status = "limit") <=> (r.fin.cnt = r.L + 1)
 Ref == C.runs[1]
 RefEnds == Ref.fin.status # "limit"
-SameAsRef(r) == r.trace = Ref.trace /\ r.fin.status = Ref.fin.status /\ r.fin.ret = Ref.fin.ret
-                /\ r.fin.globals = Ref.fin.globals /\ r.fin.cnt = Ref.fin.cnt /\ r.fin.arg = Ref.fin.arg
+SameAsRef(r) == EventSeqEq(r.trace, Ref.trace) /\ r.fin.status = Ref.fin.status /\ TreeEq(r.fin.ret, Ref.fin.ret)
+                /\ TreeMapEq(r.fin.globals, Ref.fin.globals) /\ r.fin.cnt = Ref.fin.cnt /\ r.fin.arg = Ref.fin.arg
 Law(r) ==
     IF ~ExactRun(r) THEN "exact"
     ELSE IF ~MonotoneRun(r) THEN "monotone"
     ELSE IF r.L = 0 THEN (IF r.fin.status = "limit" THEN "unlimited-run-aborted" ELSE "ok")
     ELSE IF RefEnds /\ r.L >= Ref.fin.cnt THEN (IF SameAsRef(r) THEN "ok" ELSE "complete")
-    ELSE IF (RefEnds \/ r.L < Ref.L) /\ ~(r.fin.status = "limit" /\ IsPrefix(r.trace, Ref.trace)) THEN "prefix"
+    ELSE IF (RefEnds \/ r.L < Ref.L) /\ ~(r.fin.status = "limit" /\ Len(r.trace) <= Len(Ref.trace) /\ EventSeqEq(r.trace, SubSeq(Ref.trace, 1, Len(r.trace)))) THEN "prefix"
     ELSE "ok"
 Bad == { i \in 1..Len(C.runs) : Law(C.runs[i]) # "ok" }
 
